@@ -334,6 +334,31 @@ def rule_wal_open_floor(cx):
         cx.check(ok, "`%s`: the WAL is opened with floor = manifest.log_number" % owner, "wal-open-floor|%s" % owner, c.where(),
                  "`%s` opens the store's WAL with a floor that is not the manifest's log_number: commits can be appended to a segment "
                  "number the next recovery skips" % owner)
+    # ... and it is the log_number of the manifest that is INSTALLED when the writer is opened: not of a manifest value moved
+    # out of the shared slot (mem::replace / take / swap), and not read before the function installs a new manifest
+    n = 0
+    for b in f.scan_bodies():
+        gets = [c for c in b.calls if c.bb in b.live and c.primary.split("::")[-1] == "get_log_number" and c.args]
+        if not gets or "test" in b.file or not (f.may_reach(b.id, "Wal::open_with_min_log_number") or f.may_reach(b.id, "wal::recovery::replay_wal", "replay_wal")):
+            continue
+        installs = set()
+        for i, j, lhs, rv, line in b.assigns():
+            if i in b.live and len(lhs) == 2 and lhs[1] == "*" and rv[0] in ("use", "agg") and b.local_ty(lhs[0]).replace(" ", "").endswith("mutlevels::LevelManifest"):
+                installs.add(i)
+        for c in b.calls:
+            if c.bb in b.live and c.primary in ("std::mem::replace", "std::mem::swap", "std::mem::take") and c.args and "LevelManifest" in b.local_ty(c.args[0][1][0]) if c.args and c.args[0][0] in ("c", "m") else False:
+                installs.add(c.bb)
+        owner = f.fn_of(b).id
+        for g in gets:
+            n += 1
+            ro = origin_of_operand(b, g.args[0], through_calls="all")
+            moved = ro.call_names() & {"std::mem::replace", "std::mem::take", "std::mem::swap"}
+            later = [i for i in sorted(installs) if i in b.reachable_after([g.bb]) and i != g.bb]
+            cx.check(not moved and not later, "`%s`: log_number is read from the installed manifest" % owner, "wal-floor-stale-manifest|%s" % owner, g.where(),
+                     "`%s` takes the WAL floor / replay start from a manifest that is no longer (or not yet) the installed one (%s): after a restore the writer is opened "
+                     "below the restored manifest's log_number, and the commits that follow sit in a segment the next recovery skips and close() deletes" % (
+                         owner, "value moved out by %s" % sorted(moved)[0] if moved else "read before the new manifest is stored"))
+    cx.floor("log_number reads that feed a WAL open / replay", n, 2)
 
 
 def rule_replay_window(cx):
@@ -489,6 +514,25 @@ def _replay_truncates_torn_tail(cx):
                 if any(x.startswith("Add") for x in o.ops) and not o.params and not o.calls:
                     cx.bad("torn-tail-cut-conditional", "replay_wal cuts the torn tail only when a record counter passes a test: a segment whose FIRST record is torn keeps "
                            "its stray bytes, the writer appends behind them and the session's commits are lost at the next recovery", cm.where())
+    # ... nor on HOW MANY stray bytes follow the last complete record: the writer appends right behind even a single one.
+    # (the only admissible test is `file length` against the valid length itself -- no arithmetic, no other constant)
+    names = f.reach_names(rb.id) | {rb.id}
+    holders = [b for b in f.scan_bodies() if (b.id in names or f.fn_of(b).id in names) and b.file.endswith("wal/recovery.rs") and "repair" not in (b.name or b.id)
+               and any(c.bb in b.live and c.names & {"std::fs::File::set_len"} for c in b.calls)]
+    for hb in holders:
+        for sl in [c for c in hb.calls if c.bb in hb.live and c.names & {"std::fs::File::set_len"}]:
+            for cm in comparisons(hb):
+                if cm.condition_to_reach(sl.bb) is None:
+                    continue
+                for op in (cm.lhs, cm.rhs):
+                    o = origin_of_operand(hb, op, through_calls="all")
+                    arith = {x for x in o.ops if x.split("(")[0] in ("Sub", "Add", "Mul", "Div", "Rem", "Shr", "Shl", "SubWithOverflow", "AddWithOverflow")}
+                    arith |= {n for n in o.call_names() if n.split("::")[-1].split("_")[-1] in ("sub", "add", "div", "rem", "mul")}
+                    consts = [k for k in o.consts if (k.get("v") not in (None, 0, "0") or k.get("cdef")) and k.get("ty") in ("u64", "usize", "u32", "i64")]
+                    if arith or consts:
+                        cx.bad("torn-tail-cut-conditional|threshold", "`%s` cuts the torn tail only when the stray bytes pass a size test (%s): a remainder the test lets through stays in the "
+                               "file, the writer appends behind it mid-block, and the next recovery reads a header made of stale and new bytes -- every later commit in the "
+                               "segment is cut off while later segments replay" % (hb.id, ", ".join(sorted(arith)) or "constant threshold"), cm.where())
     cx.note("replay_wal truncates the torn tail of the last segment: %s" % good)
     # and the writer is opened after that replay (rule_open_after_repair checks the order in Core::new / restore)
     return good
